@@ -49,14 +49,11 @@ class TimeAdd(Contract):
         return [('total-conserved', eq(T(d, t, eod), add(T(d1, t1, eod), T(d2, t2, eod)))),
                 ('normalised', And(ge(t, 0), lt(t, eod)))]
 
-    def replay(self, c):
+    def real(self, inp):
         import_real()
         from PseudoNetCDF.camxfiles.timetuple import timeadd
-        (d1, t1), (d2, t2) = c['datetime1'], c['datetime2']
-        d, t = timeadd((d1, fl(t1)), (d2, fl(t2)), fl(c['eod']))
-        ok = all(bool(f) for _, f in self.ensures(
-            dict(datetime1=(d1, t1), datetime2=(d2, t2), eod=c['eod']), (d, sym.conc(t)), None))
-        return ok, dict(result=[d, t])
+        (d1, t1), (d2, t2) = inp['datetime1'], inp['datetime2']
+        return timeadd((d1, fl(t1)), (d2, fl(t2)), fl(inp['eod']))
 
 
 def neg(x):
@@ -78,6 +75,13 @@ class TimeDiff(Contract):
         if self.eod is not None:
             inp['eod'] = self.eod
         return inp
+
+    def real(self, inp):
+        import_real()
+        from PseudoNetCDF.camxfiles.timetuple import timediff
+        (d1, t1), (d2, t2) = inp['datetime1'], inp['datetime2']
+        a = [(d1, fl(t1)), (d2, fl(t2))] + ([fl(inp['eod'])] if 'eod' in inp else [])
+        return timediff(*a)
 
     def ensures(self, inp, res, I):
         (d1, t1), (d2, t2) = inp['datetime1'], inp['datetime2']
@@ -174,9 +178,18 @@ def uamiv_wf(s):
                ge(a['data_start_byte'], 0), gt(a['padded_size'], 8), eq(a['padded_time_hdr_size'], 24))
 
 
+def _uamiv_real(inp):
+    import_real()
+    from PseudoNetCDF.camxfiles.uamiv.Read import uamiv
+    return scaffold(uamiv, **{k: fl(v) for k, v in inp['self'].attrs.items()})
+
+
 class LayerRecords(Contract):
     prop = 'C13'
     target = UR + '::uamiv.__layerrecords'
+
+    def real(self, inp):
+        return _uamiv_real(inp)._uamiv__layerrecords(inp['k'])
 
     def inputs(self, ctx, I):
         return dict(self=uamiv_self(ctx, I), k=ctx.fresh('k'))
@@ -192,6 +205,9 @@ class SpcRecords(Contract):
 
     def inputs(self, ctx, I):
         return dict(self=uamiv_self(ctx, I), spc=ctx.fresh('spc'))
+
+    def real(self, inp):
+        return _uamiv_real(inp)._uamiv__spcrecords(inp['spc'])
 
     def ensures(self, inp, res, I):
         return [('records-before-species', eq(res, mul(sub(inp['spc'], 1), inp['self'].attrs['nlayers'])))]
@@ -209,6 +225,10 @@ class TimeRecords(Contract):
 
     def requires(self, inp):
         return uamiv_wf(inp['self'])
+
+    def real(self, inp):
+        d, t = inp['dt']
+        return _uamiv_real(inp)._uamiv__timerecords((d, fl(t)))
 
     def steps(self, inp):
         a = inp['self'].attrs
@@ -262,16 +282,8 @@ class RecordPosition(Contract):
         return [('lemma:elapsed-steps', eq(sym.trunc(sym.truediv(el, a['time_step'])), inp['n'])),
                 ('offset-equals-layout-position', eq(res, self.spec_pos(inp)))]
 
-    def replay(self, c):
-        P = import_real()
-        from PseudoNetCDF.camxfiles.uamiv.Read import uamiv
-        s = c['self']
-        o = scaffold(uamiv, **{k: fl(v) for k, v in s.items() if k != '__obj__'})
-        got = o._uamiv__recordposition(c['date'], fl(c['time']), c['spc'], c['k'])
-        inp = dict(c)
-        inp['self'] = type('S', (), {'attrs': {k: v for k, v in s.items() if k != '__obj__'}})()
-        exp = self.spec_pos(inp)
-        return got == exp, dict(got=got, expected=exp)
+    def real(self, inp):
+        return _uamiv_real(inp)._uamiv__recordposition(inp['date'], fl(inp['time']), inp['spc'], inp['k'])
 
 
 class RecordPositionNextDay(RecordPosition):
